@@ -15,14 +15,16 @@ import (
 	gojson "github.com/goccy/go-json"
 )
 
-// documents the tree model can carry: keys and strings without escapes, strings that are not JSON texts themselves
+// documents the tree model can carry: the tree holds keys and strings as they are after unescaping (the document
+// may spell them with escapes: the walk must leave the text it hands out as it found it); ASCII, strings that are not
+// JSON texts themselves
 func c20PlainString(s string) bool {
 	if s == "" {
 		return true
 	}
 	for i := 0; i < len(s); i++ {
 		c := s[i]
-		if c < 0x20 || c == '"' || c == '\\' || c >= 0x7f || c == '<' || c == '>' || c == '&' {
+		if (c < 0x20 && c != '\n' && c != '\t') || c >= 0x7f || c == '<' || c == '>' || c == '&' {
 			return false
 		}
 	}
@@ -38,7 +40,7 @@ func c20Wire(w *strings.Builder, v interface{}) bool {
 				return false
 			}
 			for i := 0; i < len(m.k); i++ {
-				if c := m.k[i]; c < 0x20 || c == '"' || c == '\\' || c >= 0x7f {
+				if c := m.k[i]; (c < 0x20 && c != '\n' && c != '\t') || c >= 0x7f {
 					return false
 				}
 			}
@@ -150,7 +152,7 @@ func c20GenDoc(r *rand.Rand, depth int) string {
 	case 0:
 		return []string{"1", "0", "-2", "1.5", "1e2", "20"}[r.Intn(6)]
 	case 1:
-		return []string{`"s"`, `"zz"`, `""`, `"x y"`, `"a"`}[r.Intn(5)]
+		return []string{`"s"`, `"zz"`, `""`, `"x y"`, `"a"`, `"x\ny"`, `"q\"q\\"`, `"\u0061\tb"`}[r.Intn(8)]
 	case 2:
 		return []string{"true", "false", "null"}[r.Intn(3)]
 	case 3:
@@ -166,7 +168,14 @@ func c20GenDoc(r *rand.Rand, depth int) string {
 		n := 1 + r.Intn(4)
 		parts := make([]string, n)
 		for i := range parts {
-			parts[i] = genWS(r) + `"` + c20Names[r.Intn(len(c20Names))] + `"` + genWS(r) + ":" + genWS(r) + c20GenDoc(r, depth-1)
+			name := c20Names[r.Intn(len(c20Names))]
+			switch r.Intn(8) {
+			case 0: // the same name, spelled with an escape
+				name = fmt.Sprintf(`\u%04x`, name[0]) + name[1:]
+			case 1: // other names that need unescaping
+				name = []string{`k\ny`, `\"q`, `a\tb`, `\\`}[r.Intn(4)]
+			}
+			parts[i] = genWS(r) + `"` + name + `"` + genWS(r) + ":" + genWS(r) + c20GenDoc(r, depth-1)
 		}
 		return "{" + strings.Join(parts, ",") + "}"
 	}
